@@ -54,6 +54,24 @@ Proof.
     rewrite (lsum_zeroed _ (proj2 (ca_zeroed k))). lia.
 Qed.
 
+(* the PDA variant of the transfer instruction *)
+Lemma keep_last_update_sums f w0 w old : osum f (lw_accts (keep_last_update w0 w old)) = osum f (lw_accts w).
+Proof.
+  unfold keep_last_update. destruct (get_macct w0 old) as [A0|e0]; [|reflexivity].
+  destruct (get_macct w old) as [A|e] eqn:EA; [|reflexivity].
+  unfold get_macct in EA. destruct (nth_error (lw_accts w) old) as [[a0|]|] eqn:Eo; try discriminate.
+  apply Ok_inj in EA. subst a0.
+  unfold set_macct. cbn [lw_accts]. rewrite (osum_set_nth _ _ _ _ _ Eo). unfold oval. cbn [ma_la]. lia.
+Qed.
+
+Theorem transfer_pda_keeps_position_sums w old new signer na fw w' k :
+  h_transfer_pda w old new signer na fw = Ok w' ->
+  osum (ca k) (lw_accts w') = osum (ca k) (lw_accts w) /\ osum (cl k) (lw_accts w') = osum (cl k) (lw_accts w).
+Proof.
+  unfold h_transfer_pda. intros H. apply bind_ok in H as (w1 & H1 & H). apply Ok_inj in H. subst w'.
+  rewrite !keep_last_update_sums. exact (transfer_keeps_position_sums _ _ _ _ _ _ _ k H1).
+Qed.
+
 (* close: all_empty = every slot has both sides below one share-unit (EMPTY_BALANCE_THRESHOLD) *)
 Lemma all_empty_small la : all_empty la = Ok true -> Forall (fun bl => bl_a bl < EMPTY_BALANCE_THRESHOLD /\ bl_l bl < EMPTY_BALANCE_THRESHOLD) la.
 Proof.
